@@ -23,11 +23,14 @@ META = {
             "extracted model admits (exhaustive exploration per program); monitors check the property text itself "
             "(multiset conservation, no duplicate/invented value, real-time FIFO on stamped calls, exclusive payload "
             "cells, justified try_ failures) on every run, including the compensating push_n/pop_n variants.",
-    "note": "PARTIAL where named *_partial in coq/Properties_C01.v: the compensating push_n/pop_n(cb, reverse_cb, n) "
-            "variants are outside the Coq model (monitors only); proofs are over sequentially consistent "
-            "interleavings - the release/acquire publication argument is reduced to memory-order obligations on the "
-            "regenerated site tables (c01_memory_order_obligations), not executed on a weak-memory machine; 16-bit "
-            "version truncation is handled by a separate lemma under the assumption of < 2^15 rounds of ticket lag.  "
+    "note": "All four schedule-quantified statements are theorems (c01_exclusive, c01_exactly_once incl. conservation at "
+            "quiescence, c01_fifo_realtime, c01_try_fail_justified), proved for every usage_ok program / capacity 2^k / thread "
+            "count / schedule from the ticket-interval invariant (coq/BQ/BQInv*.v), every theorem 'Closed under the global "
+            "context'.  Not covered by the Coq model: the compensating push_n/pop_n(cb, reverse_cb, n) variants (monitors "
+            "only).  Proofs are over sequentially consistent interleavings - the release/acquire publication argument is "
+            "reduced to memory-order obligations on the regenerated site tables (c01_memory_order_obligations), not executed "
+            "on a weak-memory machine; the model keeps versions unbounded and compares them as the code does, 16-bit "
+            "truncation is handled by c01_version16_sound under the assumption of < 2^15 rounds of ticket lag.  "
             "Trusted: Coq kernel; translator; extraction (ExtrOcamlBasic) + OCaml explorer; macro shim + dsched "
             "(serialises threads); kernel futex semantics are modelled (compare-and-block atomically, wake_all wakes "
             "every sleeper on the word).",
@@ -313,7 +316,10 @@ def run(prop, argv, meta_focus):
             if strat == 1 and yields:
                 strat = 3        # PCT is unfair to sched_yield loops (drain / compensating variants)
             cid = "%s.%d" % (pid, si)
-            lines.append("%s %d %d %d 0 %s" % (cid, seed, strat, k, model_prog(th)))
+            # every third schedule also lets futex_wait return without a wake (EINTR / spurious 0): the waiter
+            # must re-check the version and wait again - the model admits no new outcome for it
+            spur = 1 if (si % 3 == 2 and strat != 1) else 0
+            lines.append("%s %d %d %d %d %s" % (cid, seed, strat, k, spur, model_prog(th)))
             meta[cid] = (pid, k, th, small, nostuck, seed, strat)
     chk.log("%d programs x %d schedules" % (len(progs), len(scheds)))
     impl_out = chk.run_cases(impl, lines, timeout=900) if impl else {}
